@@ -11,6 +11,7 @@ pub mod c08;
 pub mod c09;
 pub mod c11;
 pub mod c12;
+pub mod c13;
 pub mod c14;
 pub mod c15;
 pub mod c17;
@@ -41,6 +42,8 @@ pub fn registry() -> &'static [Check] {
         Check { meta: &c09::META, run: c09::run, shards: (16, 16) },
         Check { meta: &c11::META, run: c11::run, shards: (16, 16) },
         Check { meta: &c12::META, run: c12::run, shards: (16, 16) },
+        Check { meta: &c13::META13, run: c13::run13, shards: (16, 16) },
+        Check { meta: &c13::META16, run: c13::run16, shards: (16, 16) },
         Check { meta: &c14::META, run: c14::run, shards: (16, 16) },
         Check { meta: &c15::META, run: c15::run, shards: (16, 16) },
         Check { meta: &c17::META, run: c17::run, shards: (16, 16) },
@@ -69,6 +72,8 @@ pub fn sub(args: &[String]) -> i32 {
     match args.first().map(String::as_str) {
         Some("probe") => probe(&args[1]),
         Some("hprobe") => hprobe(&args[1]),
+        Some("workload") => crate::crash::workload_main(&args[1], &args[2]),
+        Some("recover") => crate::crash::recover_main(&args[1], &args[2]),
         _ => {
             eprintln!("unknown sub command {args:?}");
             2
